@@ -449,6 +449,36 @@ pub fn run(ctx: &Ctx) -> Rep {
                     }
                 }
             }
+            // directed "the other slots hold four of a kind" pass: for sizes 5..7, every rank, every written slot and
+            // a seeded arrangement of that rank's four cards in other slots, then a write of each card of that rank,
+            // of its flagged forms and of an unrelated card into the remaining slot(s)
+            if !ctx.smoke() {
+                for n in 5..=7usize {
+                    for r in 0..13u8 {
+                        for s in 0..n {
+                            let mut others: Vec<usize> = (0..n).filter(|&k| k != s).collect();
+                            rng.shuffle(&mut others);
+                            let mut w: Vec<u32> = vec![0; n];
+                            for (k, &slot) in others.iter().enumerate() {
+                                w[slot] = if k < 4 { crate::model::word(crate::model::idx(r, k as u8)) } else { crate::model::word(crate::model::idx((r + 1 + k as u8) % 13, (k % 4) as u8)) };
+                            }
+                            w[s] = crate::model::word(crate::model::idx((r + 5) % 13, 1));
+                            let mut ops = vec![Op::New(0, w.clone())];
+                            for su in 0..4u8 {
+                                let c = crate::model::word(crate::model::idx(r, su));
+                                ops.push(Op::Set(s, c));
+                                ops.push(Op::Set(s, c | (1 << 29)));
+                                ops.push(Op::Set(s, c | (7 << 29)));
+                            }
+                            ops.push(Op::Set(s, crate::model::word(crate::model::idx((r + 3) % 13, 2))));
+                            ops.push(Op::Set(s, 0));
+                            run_history(&mut st, n, &ops);
+                            st.rep.distinct += 1;
+                            st.rep.add("directed_quads_in_other_slots_histories", 1);
+                        }
+                    }
+                }
+            }
             for n in [6usize, 7] {
                 if !(ctx.smoke() && n == 7) {
                     check_selection(&mut st, n, &mut rng);
